@@ -416,25 +416,42 @@ def tables_match_header(S: Any) -> Any:
 class _term_encoder_init:
     """a new term encoder has three empty tables of exactly the preset's sizes, coupled with the empty spec tables, and
     shares them with nobody"""
-    params = {"self": NEWOBJ(GENC), "lookup_preset": OBJ(PRESET)}
+    params = {"self": NEWOBJ(GENC), "lookup_preset": OPT(OBJ(PRESET))}
     variants = [{"self": NEWOBJ(GENC)}, {"self": NEWOBJ("pyjelly.integrations.rdflib.serialize:RDFLibTermEncoder")}]
     modifies = ["self"]
 
     def requires(e):
-        lp = e.lookup_preset
-        return And(lp.max_names >= 1, lp.max_names < 2 ** 32, lp.max_prefixes >= 0, lp.max_prefixes < 2 ** 32,
-                   lp.max_datatypes >= 0, lp.max_datatypes < 2 ** 32)
+        lp = opt_val(e.lookup_preset)
+        if lp is None:
+            return True       # called without a preset
+        return Implies(Not(is_none(e.lookup_preset)),
+                       And(lp.max_names >= 1, lp.max_names < 2 ** 32, lp.max_prefixes >= 0, lp.max_prefixes < 2 ** 32,
+                           lp.max_datatypes >= 0, lp.max_datatypes < 2 ** 32))
 
-    def aliases(e): return {"self.lookup_preset": e.lookup_preset}
+    def lists(e):
+        given = Not(is_none(e.lookup_preset))
+        if opt_val(e.lookup_preset) is None:
+            return [dict(label="default-preset", when=True, set={}, new={"self.lookup_preset": OBJ(PRESET)})]
+        return [dict(label="preset-given", when=given, set={}, alias={"self.lookup_preset": opt_val(e.lookup_preset)}),
+                dict(label="default-preset", when=Not(given), set={}, new={"self.lookup_preset": OBJ(PRESET)})]
 
     def ensures(e):
-        E, lp = e.self, e.lookup_preset
+        E = e.self
+        from pyvc.values import Opt
+        given = Not(is_none(e.lookup_preset))
+        lp = opt_val(e.lookup_preset)
+        if lp is None:
+            sizes = [z3.IntVal(4000), z3.IntVal(150), z3.IntVal(32)]
+        else:
+            sizes = [z3.If(given, a, d) for a, d in ((lp.max_names, 4000), (lp.max_prefixes, 150), (lp.max_datatypes, 32))]
         new = lambda v: v._ref.id not in e._old_heap  # noqa: E731
+        P = E.lookup_preset.val if isinstance(E.lookup_preset, Opt) else E.lookup_preset
         return {"tables-well-formed-and-coupled": wf_te(E),
-                "sizes-are-the-preset's": And(E.names.lookup.max_size == lp.max_names, E.prefixes.lookup.max_size == lp.max_prefixes,
-                                               E.datatypes.lookup.max_size == lp.max_datatypes),
-                "spec-tables-empty": And(table_eq(E.names.T, empty_table(lp.max_names)), table_eq(E.prefixes.T, empty_table(lp.max_prefixes)),
-                                         table_eq(E.datatypes.T, empty_table(lp.max_datatypes))),
+                "sizes-are-the-preset's-or-the-defaults": And(E.names.lookup.max_size == sizes[0], E.prefixes.lookup.max_size == sizes[1],
+                                                              E.datatypes.lookup.max_size == sizes[2]),
+                "recorded-preset-has-those-sizes": And(P.max_names == sizes[0], P.max_prefixes == sizes[1], P.max_datatypes == sizes[2]),
+                "spec-tables-empty": And(table_eq(E.names.T, empty_table(sizes[0])), table_eq(E.prefixes.T, empty_table(sizes[1])),
+                                         table_eq(E.datatypes.T, empty_table(sizes[2]))),
                 "tables-are-per-encoder": new(E.names) and new(E.prefixes) and new(E.datatypes)}
 
 
